@@ -534,6 +534,8 @@ class DnsUpstream(sansio.Peer):
         mode = self.seg
         if mode == "split":
             mode = self.rng.randrange(1, max(2, len(wire)))
+        elif isinstance(mode, tuple) and mode[0] == "chunk":  # fixed-size segments, e.g. what reader.read(65535) returns under load
+            mode = list(range(mode[1], len(wire), mode[1]))
         for s in cut(wire, self.rng, mode):
             self.segments.append(bytes(s))
             self.send(s)
